@@ -157,6 +157,290 @@ fn c09_stereo_selection_never_exceeds_independent() {
     std::mem::forget(fb);
 }
 
+// ---- stereo choice, split at the two free functions around it (measured: finishes, unlike the
+// harness above that goes through encode_frame / Vec<SubFrame>)
+static mut MS_CAPTURE_M: [i32; 4] = [0; 4];
+static mut MS_CAPTURE_S: [i32; 4] = [0; 4];
+static mut MS_CAPTURE_N: usize = usize::MAX;
+static mut MS_CAPTURE_SIZE: usize = usize::MAX;
+static mut MS_IMPL_CALLS: usize = 0;
+static mut MS_IMPL_ASSIGNMENT_OK: bool = false;
+static mut RECOMBINE_TAG: u8 = 255;
+static mut RECOMBINE_CALLS: usize = 0;
+
+fn assignment_tag(a: &ChannelAssignment) -> u8 {
+    match *a {
+        ChannelAssignment::Independent(n) => n,
+        ChannelAssignment::LeftSide => 100,
+        ChannelAssignment::RightSide => 101,
+        ChannelAssignment::MidSide => 102,
+    }
+}
+
+/// Stand-in for `encode_frame_impl`: records what it is asked to encode (the mid/side buffer
+/// built by the real `try_stereo_coding`) and returns a frame without subframes.
+fn encode_frame_impl_capture_stub(
+    _config: &config::Encoder,
+    framebuf: &FrameBuf,
+    offset: u64,
+    _stream_info: &StreamInfo,
+    ch_info: &ChannelAssignment,
+) -> Frame {
+    unsafe {
+        MS_IMPL_CALLS += 1;
+        MS_IMPL_ASSIGNMENT_OK = matches!(*ch_info, ChannelAssignment::MidSide);
+        MS_CAPTURE_N = framebuf.filled_size();
+        MS_CAPTURE_SIZE = framebuf.size();
+        let (m, s) = (framebuf.channel_slice(0), framebuf.channel_slice(1));
+        let mut t = 0;
+        while t < 4 {
+            if t < m.len() && t < s.len() {
+                MS_CAPTURE_M[t] = m[t];
+                MS_CAPTURE_S[t] = s[t];
+            }
+            t += 1;
+        }
+    }
+    let mut f = Frame::new_empty(
+        BlockSizeSpec::from_size(framebuf.filled_size() as u16),
+        ch_info.clone(),
+        SampleSizeSpec::B16,
+        SampleRateSpec::R44_1kHz,
+    );
+    f.header_mut().set_frame_offset(FrameOffset::StartSample(offset));
+    f
+}
+
+/// Stand-in for `recombine_stereo_frame`: records the channel assignment chosen by the real
+/// selection code; the recombination itself has its own harness below.
+fn recombine_capture_stub(header: FrameHeader, indep: Frame, ms: Frame) -> Frame {
+    unsafe {
+        RECOMBINE_TAG = assignment_tag(header.channel_assignment());
+        RECOMBINE_CALLS += 1;
+    }
+    std::mem::forget(ms);
+    std::mem::forget(header);
+    indep
+}
+
+//@ prop: C09
+//@ also: C01
+//@ drives: coding::try_stereo_coding (the real mid/side transform closure, FrameBuf::resize, FrameBuf::fill_stereo_with_iter into the MSFRAMEBUF scratch buffer, the bit-count comparison among independent / left-side / right-side / mid-side, FrameHeader::reset_channel_assignment)
+//@ bound: stereo block of 3 samples in a 4-sample frame buffer, every 24-bit sample value on both channels; the four subframe sizes (left, right, mid, side) arbitrary in 8..=263 bits; every combination of the three stereo switches
+//@ asserts: (C09) the channel assignment handed to the recombination has the minimum total size among the enabled combinations and never exceeds left+right; (C01) the buffer handed to the mid/side encoder holds exactly the block's samples transformed so that the RFC 9639 inverse (mid<<1|side&1, +-side, >>1) returns left and right, with side within 25 bits and mid within 24 bits
+//@ stubs: coding::encode_frame_impl -> records the buffer it is given and returns an empty frame; coding::recombine_stereo_frame -> records the chosen assignment (checked separately by c09_recombine_emits_the_named_pair); Frame::subframe -> stand-in subframes of arbitrary size from a static table; alloc::fmt::format -> empty string
+//@ oracle: c09_oracle_stereo_anticorrelated
+#[kani::proof]
+#[kani::unwind(8)]
+#[kani::stub(alloc::fmt::format, fmt_stub)]
+#[kani::stub(super::encode_frame_impl, encode_frame_impl_capture_stub)]
+#[kani::stub(super::recombine_stereo_frame, recombine_capture_stub)]
+#[kani::stub(crate::component::datatype::Frame::subframe, frame_subframe_stub)]
+fn c09_stereo_choice_is_minimum() {
+    let mut cfg = config::Encoder::default();
+    cfg.stereo_coding.use_leftside = kani::any();
+    cfg.stereo_coding.use_rightside = kani::any();
+    cfg.stereo_coding.use_midside = kani::any();
+    let bps: [u8; 4] = kani::any();
+    unsafe {
+        let mut k = 0;
+        while k < 4 {
+            SUB_STUB_STATIC[k] = Some(Constant::from_parts(3, k as i32, bps[k]).into());
+            k += 1;
+        }
+    }
+    let x: [i32; 6] = kani::any();
+    let mut k = 0;
+    while k < 6 {
+        kani::assume(x[k] >= -(1 << 23) && x[k] < (1 << 23));
+        k += 1;
+    }
+    let mut fb = crate::source::verif_kani::new_framebuf(2, 4);
+    let r = fb.fill_interleaved(&x);
+    assert!(r.is_ok());
+    std::mem::forget(r);
+    let info = gen::stream_info_of(44100, 2, 24);
+    let indep = Frame::new_empty(
+        BlockSizeSpec::from_size(3),
+        ChannelAssignment::Independent(2),
+        SampleSizeSpec::B24,
+        SampleRateSpec::R44_1kHz,
+    );
+    let frame = try_stereo_coding(&cfg, &fb, indep, 0, &info);
+    unsafe {
+        assert!(MS_IMPL_CALLS == 1 && MS_IMPL_ASSIGNMENT_OK && RECOMBINE_CALLS == 1);
+        // C01: the mid/side buffer is an invertible image of exactly this block
+        assert!(MS_CAPTURE_N == 3 && MS_CAPTURE_SIZE == 4);
+        let mut t = 0;
+        while t < 3 {
+            let (l, r) = (x[2 * t] as i64, x[2 * t + 1] as i64);
+            let (m, s) = (MS_CAPTURE_M[t] as i64, MS_CAPTURE_S[t] as i64);
+            let mid = (m << 1) | (s & 1);
+            assert!((mid + s) >> 1 == l);
+            assert!((mid - s) >> 1 == r);
+            assert!(s >= -(1 << 24) && s < (1 << 24));
+            assert!(m >= -(1 << 23) && m < (1 << 23));
+            t += 1;
+        }
+    }
+    // C09: the choice is the minimum over the enabled combinations
+    let (l, r, m, s) = (8 + bps[0] as usize, 8 + bps[1] as usize, 8 + bps[2] as usize, 8 + bps[3] as usize);
+    let mut best = l + r;
+    if cfg.stereo_coding.use_leftside && l + s < best { best = l + s; }
+    if cfg.stereo_coding.use_rightside && r + s < best { best = r + s; }
+    if cfg.stereo_coding.use_midside && m + s < best { best = m + s; }
+    let tag = unsafe { RECOMBINE_TAG };
+    let chosen = if tag == 2 { l + r }
+        else if tag == 100 { assert!(cfg.stereo_coding.use_leftside); l + s }
+        else if tag == 101 { assert!(cfg.stereo_coding.use_rightside); s + r }
+        else { assert!(tag == 102 && cfg.stereo_coding.use_midside); m + s };
+    assert!(chosen == best);
+    assert!(chosen <= l + r);
+    kani::cover!(tag == 101);
+    kani::cover!(tag == 2 && cfg.stereo_coding.use_midside);
+    kani::cover!(x[0] < 0 && x[1] > 0 && (x[0] + x[1]) & 1 == 1);
+    std::mem::forget(frame);
+    std::mem::forget(fb);
+}
+
+fn recombine_case(assignment: ChannelAssignment, want: (i32, i32)) {
+    let mk = |a: ChannelAssignment, t0: i32, t1: i32| -> Frame {
+        let mut f = Frame::new_empty(BlockSizeSpec::from_size(3), a, SampleSizeSpec::B16, SampleRateSpec::R44_1kHz);
+        f.add_subframe(Constant::from_parts(3, t0, 16).into());
+        f.add_subframe(Constant::from_parts(3, t1, 17).into());
+        f
+    };
+    let indep = mk(ChannelAssignment::Independent(2), 0, 1);
+    let ms = mk(ChannelAssignment::MidSide, 2, 3);
+    let mut header = ms.header().clone();
+    header.reset_channel_assignment(assignment.clone());
+    let out = recombine_stereo_frame(header, indep, ms);
+    assert!(*out.header().channel_assignment() == assignment);
+    assert!(out.subframe_count() == 2);
+    let tag = |sf: Option<&SubFrame>| -> i32 { if let Some(SubFrame::Constant(c)) = sf { c.dc_offset() } else { -1 } };
+    assert!(tag(out.subframe(0)) == want.0);
+    assert!(tag(out.subframe(1)) == want.1);
+    // the extra bit of the side channel sits where RFC 9639 puts it for this assignment
+    let side_pos = if want.0 == 3 { Some(0) } else if want.1 == 3 { Some(1) } else { None };
+    assert!(assignment.bits_per_sample_offset(0) == if side_pos == Some(0) { 1 } else { 0 });
+    assert!(assignment.bits_per_sample_offset(1) == if side_pos == Some(1) { 1 } else { 0 });
+    std::mem::forget(out);
+}
+
+//@ prop: C09
+//@ also: C01
+//@ drives: coding::recombine_stereo_frame, Frame::into_stereo_channels, ChannelAssignment::select_channels, ChannelAssignment::bits_per_sample_offset, Frame::from_parts, FrameHeader::reset_channel_assignment
+//@ bound: the four stereo channel assignments (symbolic choice), stand-in subframes tagged left=0, right=1, mid=2, side=3
+//@ asserts: the frame carries the assignment it was given and exactly the pair of subframes RFC 9639 names for it (independent: left,right; left-side: left,side; right-side: side,right; mid-side: mid,side); the side channel is the one declared one bit wider
+#[kani::proof]
+#[kani::unwind(6)]
+#[kani::stub(alloc::fmt::format, fmt_stub)]
+fn c09_recombine_emits_the_named_pair() {
+    let which: u8 = kani::any();
+    kani::assume(which < 4);
+    if which == 0 {
+        recombine_case(ChannelAssignment::Independent(2), (0, 1));
+    } else if which == 1 {
+        recombine_case(ChannelAssignment::LeftSide, (0, 3));
+    } else if which == 2 {
+        recombine_case(ChannelAssignment::RightSide, (3, 1));
+    } else {
+        recombine_case(ChannelAssignment::MidSide, (2, 3));
+    }
+    kani::cover!(which == 2);
+}
+
+static mut WIRE_CALLS: usize = 0;
+static mut WIRE_FIRST: [i32; 8] = [0; 8];
+static mut WIRE_LEN: [usize; 8] = [0; 8];
+static mut WIRE_BPS: [u8; 8] = [0; 8];
+/// Stand-in for `encode_subframe`: records the channel data and width it is asked to encode and
+/// returns a constant subframe tagged with the call index.
+fn encode_subframe_wiring_stub(_config: &config::SubFrameCoding, samples: &[i32], bits_per_sample: u8) -> SubFrame {
+    unsafe {
+        let k = WIRE_CALLS;
+        WIRE_CALLS += 1;
+        if k < 8 {
+            WIRE_FIRST[k] = if samples.is_empty() { i32::MIN } else { samples[0] };
+            WIRE_LEN[k] = samples.len();
+            WIRE_BPS[k] = bits_per_sample;
+        }
+        Constant::from_parts(samples.len(), k as i32, bits_per_sample).into()
+    }
+}
+
+fn frame_impl_wiring_case<const CH: usize>(assignment: ChannelAssignment, bps: u8) {
+    let cfg = config::Encoder::default();
+    let firsts: [i16; CH] = kani::any();
+    let mut fb = crate::source::verif_kani::new_framebuf(CH, 4);
+    let mut inter = [0i32; CH];
+    let mut c = 0;
+    while c < CH {
+        inter[c] = firsts[c] as i32;
+        c += 1;
+    }
+    // one inter-channel sample followed by a second one (zeros): fill level 2 of 4
+    let mut two = [[0i32; CH]; 2];
+    two[0] = inter;
+    let flat: &[i32] = unsafe { std::slice::from_raw_parts(two.as_ptr() as *const i32, 2 * CH) };
+    let r = fb.fill_interleaved(flat);
+    assert!(r.is_ok());
+    std::mem::forget(r);
+    let info = gen::stream_info_of(44100, CH as u8, bps);
+    let offset: u64 = kani::any();
+    kani::assume(offset < (1u64 << 36));
+    unsafe { WIRE_CALLS = 0; }
+    let frame = encode_frame_impl(&cfg, &fb, offset, &info, &assignment);
+    unsafe {
+        assert!(WIRE_CALLS == CH);
+        let mut c = 0;
+        while c < CH {
+            // channel c's samples, whole fill level, declared width plus the side-channel bit
+            assert!(WIRE_FIRST[c] == firsts[c] as i32 && WIRE_LEN[c] == 2);
+            assert!(WIRE_BPS[c] as usize == bps as usize + assignment.bits_per_sample_offset(c));
+            let tag = if let Some(SubFrame::Constant(k)) = frame.subframe(c) { k.dc_offset() } else { -1 };
+            assert!(tag == c as i32);
+            c += 1;
+        }
+    }
+    assert!(frame.subframe_count() == CH);
+    assert!(frame.header().block_size() == 2);
+    assert!(*frame.header().channel_assignment() == assignment);
+    assert!(frame.header().bits_per_sample() == Some(bps as usize));
+    assert!(matches!(*frame.header().sample_rate_spec(), SampleRateSpec::R44_1kHz));
+    assert!(frame.header().start_sample_number() == offset);
+    std::mem::forget(frame);
+    std::mem::forget(fb);
+}
+
+//@ prop: C01
+//@ also: C02
+//@ drives: coding::encode_frame_impl (per-channel dispatch: FrameBuf::channel_slice, ChannelAssignment::bits_per_sample_offset, Frame::new_empty, Frame::add_subframe, FrameHeader::set_frame_offset, BlockSizeSpec::from_size, SampleSizeSpec::from_bits, SampleRateSpec::from_freq)
+//@ bound: frames of 1, 2 (independent, mid-side, right-side headers) and 3 channels, fill level 2 of a 4-sample buffer, 16/24-bit, first sample of every channel symbolic, start-sample offset over 36 bits
+//@ asserts: subframe c is built from channel c's samples (all of the fill level, nothing of the unfilled tail) with the declared width plus one bit exactly for the side channel; subframes are stored in channel order; the header states the fill level as block size, the stream's sample size and rate, the given channel assignment and offset
+//@ stubs: coding::encode_subframe -> records its arguments and returns a tagged constant subframe; alloc::fmt::format -> empty string
+#[kani::proof]
+#[kani::unwind(10)]
+#[kani::stub(alloc::fmt::format, fmt_stub)]
+#[kani::stub(super::encode_subframe, encode_subframe_wiring_stub)]
+fn c01_encode_frame_impl_wiring() {
+    let which: u8 = kani::any();
+    kani::assume(which < 5);
+    if which == 0 {
+        frame_impl_wiring_case::<1>(ChannelAssignment::Independent(1), 16);
+    } else if which == 1 {
+        frame_impl_wiring_case::<2>(ChannelAssignment::Independent(2), 24);
+    } else if which == 2 {
+        frame_impl_wiring_case::<2>(ChannelAssignment::MidSide, 16);
+    } else if which == 3 {
+        frame_impl_wiring_case::<2>(ChannelAssignment::RightSide, 24);
+    } else {
+        frame_impl_wiring_case::<3>(ChannelAssignment::Independent(3), 16);
+    }
+    kani::cover!(which == 2);
+    kani::cover!(which == 4);
+}
+
 //@ prop: C09
 //@ expect: fail
 //@ drives: (reachability witness) encode_subframe with stubbed candidates
